@@ -224,19 +224,10 @@ static int numNibbles(int value) {
   return n;
 }
 
-/// Return the length of an instruction that has a relative label reference.
-/// The length of the encoding depends on the distance to the label, which in
-/// turn depends on the length of the instruction. Calculate the value by
-/// increasing the length until they match. Note that for positive references,
-/// the length of the encoding reduces the range that must be represented, and
-/// for negative references the encoding length adds to the range that must be
-/// represented.
-static int instrLen(int labelOffset, int byteOffset) {
-  int length = 1;
-  while (length < numNibbles(labelOffset - byteOffset - length)) {
-    length++;
-  }
-  return length;
+/// Return the number of bytes needed to encode an instruction with the given
+/// operand value. A negative value always requires an NFIX.
+static int instrLen(int value) {
+  return (value < 0 && numNibbles(value) == 1) ? 2 : numNibbles(value);
 }
 
 //===---------------------------------------------------------------------===//
@@ -338,9 +329,7 @@ public:
   InstrImm(Location location, Token token, int immValue) :
       Directive(location, token), immValue(immValue) {}
   bool operandIsLabel() const { return false; }
-  size_t getSize() const {
-    return (immValue < 0 && numNibbles(immValue) == 1) ? 2 : numNibbles(immValue);
-  }
+  size_t getSize() const { return instrLen(immValue); }
   int getValue() const { return immValue; }
   std::string toString() const {
     return std::string(tokenEnumStr(getToken())) + " " + std::to_string(immValue);
@@ -350,18 +339,26 @@ public:
 class InstrLabel : public Directive {
   std::string label;
   int labelValue;
+  int length; // Length of the encoding in bytes; only ever grows.
   bool relative;
 public:
   InstrLabel(Token token, std::string label, bool relative) :
-      Directive(token), label(label), relative(relative) {}
+      Directive(token), label(label), labelValue(0), length(1), relative(relative) {}
   InstrLabel(Location location, Token token, std::string label, bool relative) :
-      Directive(location, token), label(label), relative(relative) {}
-  void setLabelValue(int newValue) { labelValue = newValue; }
+      Directive(location, token), label(label), labelValue(0), length(1), relative(relative) {}
+  /// Update the operand value, growing the encoding if the value does not
+  /// fit in the current length. Return true if the length was changed.
+  bool setLabelValue(int newValue) {
+    labelValue = newValue;
+    if (instrLen(newValue) > length) {
+      length = instrLen(newValue);
+      return true;
+    }
+    return false;
+  }
   bool operandIsLabel() const { return true; }
   bool isRelative() const { return relative; }
-  size_t getSize() const {
-    return (labelValue < 0 && numNibbles(labelValue) == 1) ? 2 : numNibbles(labelValue);
-  }
+  size_t getSize() const { return length; }
   int getValue() const { return labelValue; }
   std::string getLabel() const { return label; }
   std::string toString() const {
@@ -729,16 +726,16 @@ class CodeGen {
     }
   }
 
-  /// Iteratively update label values until the program size does not change.
-  /// Return the final size of the program.
+  /// Iteratively lay out the program and update label operand values until no
+  /// label reference needs a longer encoding. Each reference has a length
+  /// that starts at one byte and only grows, so the iteration terminates and
+  /// ends with every operand computed from the final layout.
   void resolveLabels() {
-    int lastSize = -1;
-    int byteOffset = 0;
-    //int count = 0;
-    while (lastSize != byteOffset) {
-      //std::cout << "Resolving labels iteration " << count++ << "\n";
-      lastSize = byteOffset;
-      byteOffset = 0;
+    bool changed = true;
+    while (changed) {
+      changed = false;
+      // Lay out the program using the current instruction lengths.
+      int byteOffset = 0;
       for (auto &directive : program) {
         if (directive->getToken() == Token::DATA) {
           // Data must be on 4-byte boundaries.
@@ -752,8 +749,12 @@ class CodeGen {
             directive->getToken() == Token::PROC) {
           dynamic_cast<Label*>(directive.get())->setLabelValue(byteOffset);
         }
-        // Update the label operand value of an instruction, accounting for
-        // relative and absolute references.
+        directive->setByteOffset(byteOffset);
+        byteOffset += directive->getSize();
+      }
+      // Update the label operand value of each instruction, accounting for
+      // relative and absolute references.
+      for (auto &directive : program) {
         if (directive->operandIsLabel()) {
           auto instrLabel = dynamic_cast<InstrLabel*>(directive.get());
           if (labelMap.count(instrLabel->getLabel()) == 0) {
@@ -761,23 +762,13 @@ class CodeGen {
           }
           int labelValue = labelMap[instrLabel->getLabel()]->getValue();
           if (instrLabel->isRelative()) {
-            int offset = labelValue - byteOffset;
-            //std::cout << "label value " << labelValue
-            //          << " byteOffset " << byteOffset
-            //          << " offset " << offset
-            //          << " instrlen " << instrLen(labelValue, byteOffset) << "\n";
-            if (offset >= 0) {
-              instrLabel->setLabelValue(offset - instrLen(labelValue, byteOffset));
-            } else {
-              instrLabel->setLabelValue(offset - instrLen(labelValue, byteOffset));
-            }
+            int endOffset = directive->getByteOffset() + directive->getSize();
+            changed |= instrLabel->setLabelValue(labelValue - endOffset);
           } else {
             assert((labelValue & 0x3) == 0 && "absolute label value is not word aligned");
-            instrLabel->setLabelValue(labelValue >> 2);
+            changed |= instrLabel->setLabelValue(labelValue >> 2);
           }
         }
-        directive->setByteOffset(byteOffset);
-        byteOffset += directive->getSize();
       }
     }
   }
